@@ -31,7 +31,7 @@ def check_affiliation(R, monitor, g, shape=None, eps=0.0, mask=None, key='affili
             dev = float(np.abs(s[act] - 1).max()) if act.any() else 0.0
             dead = float(np.abs(s[~act]).max()) if (~act).any() else 0.0
             ok &= R.check(monitor, dev <= tol, f'{key}/sum', f'{where} |sum_k-1| max {dev:.3e} > {tol:.1e}', prop=prop, dev=dev)
-            ok &= R.check(monitor, dead <= K * eps, f'{key}/zero-prior-column', f'{where} column without prior mass sums to {dead:.3e}', prop=prop, dev=dead)
+            ok &= R.check(monitor, dead <= K * eps * (1 + 1e-6), f'{key}/zero-prior-column', f'{where} column without prior mass sums to {dead:.3e}', prop=prop, dev=dead)
         elif mask is not None:
             m = np.broadcast_to(mask, g.shape)
             if active is not None:
@@ -41,9 +41,9 @@ def check_affiliation(R, monitor, g, shape=None, eps=0.0, mask=None, key='affili
             # all-inactive columns: exactly zero (clipped: eps per class)
             dead = np.abs(s[~anyact]).max() if (~anyact).any() else 0.0
             ok &= R.check(monitor, dev_act <= tol, f'{key}/sum', f'{where} |sum_k-1| max {dev_act:.3e} > {tol:.1e}', prop=prop, dev=float(dev_act))
-            ok &= R.check(monitor, dead <= K * eps, f'{key}/mask-all-inactive', f'{where} all-inactive column sums to {dead:.3e}', prop=prop, dev=float(dead))
+            ok &= R.check(monitor, dead <= K * eps * (1 + 1e-6), f'{key}/mask-all-inactive', f'{where} all-inactive column sums to {dead:.3e}', prop=prop, dev=float(dead))
             off = np.abs(g[~m]).max() if (~m).any() else 0.0
-            ok &= R.check(monitor, off <= eps, f'{key}/mask-leak', f'{where} masked entry {off:.3e} > eps {eps}', prop=prop, leak=float(off))
+            ok &= R.check(monitor, off <= eps * (1 + 1e-6), f'{key}/mask-leak', f'{where} masked entry {off:.3e} > eps {eps}', prop=prop, leak=float(off))
         else:
             dev = float(np.abs(s - 1).max()) if s.size else 0.0
             ok &= R.check(monitor, dev <= tol, f'{key}/sum', f'{where} |sum_k-1| max {dev:.3e} > {tol:.1e}', prop=prop, dev=dev)
